@@ -537,6 +537,11 @@ fn judge_step(w: &mut World, id: &str, k: usize, parts: &[V], reply: &V) -> (Vec
         b"ZPOPMIN" | b"ZPOPMAX" => {
             if parts.len() > 3 { return (fails, fork); }
             let count = if parts.len() == 3 { match bulk(&parts[2]).and_then(|b| std::str::from_utf8(b).ok().and_then(|s| s.parse::<u64>().ok())) { Some(n) => n, None => { if !is_err { fail("bad count accepted".into(), ""); } return (fails, fork) } } } else { 1 };
+            if zcur.is_none() && count == 0 {
+                // the type of the key is only met inside the pop loop: with count 0 a key of another type is not refused
+                if !is_err { fail("wrong type not refused (count 0)".into(), "zpop-count0-wrongtype"); }
+                return (fails, fork);
+            }
             let mut z = zset_or_refused!();
             let mut popped = vec![];
             for _ in 0..count.min(z.len() as u64) { popped.push(if &name[..] == b"ZPOPMIN" { z.remove(0) } else { z.pop().unwrap() }); }
